@@ -65,6 +65,11 @@ pub fn check_packet(x: &[u8], tag: &str) -> Result<String, (String, String)> {
         eq!("is_response(assoc)", dnssector::DNSSector::is_response(pp.packet()), qr);
         eq!("flags", pp.flags(), exp_flags);
         eq!("dnssec", pp.dnssec(), exp_dnssec);
+        // the flag word is read through the crate's own named constants: each must pick the header bit RFC 1035 /
+        // RFC 4035 / RFC 6891 give that flag
+        for (cname, c, bit) in [("DNS_FLAG_QR", dnssector::DNS_FLAG_QR, 15u32), ("DNS_FLAG_AA", dnssector::DNS_FLAG_AA, 10), ("DNS_FLAG_TC", dnssector::DNS_FLAG_TC, 9), ("DNS_FLAG_RD", dnssector::DNS_FLAG_RD, 8), ("DNS_FLAG_RA", dnssector::DNS_FLAG_RA, 7), ("DNS_FLAG_AD", dnssector::DNS_FLAG_AD, 5), ("DNS_FLAG_CD", dnssector::DNS_FLAG_CD, 4), ("DNS_FLAG_DO", dnssector::DNS_FLAG_DO, 31)] {
+            eq!(cname, pp.flags() & c != 0, (exp_flags >> bit) & 1 != 0);
+        }
         eq!("edns_version", pp.edns_version, v.edns_version);
         eq!("ext_rcode", pp.ext_rcode, v.ext_rcode);
         eq!("ext_flags", pp.ext_flags, v.ext_flags);
